@@ -232,10 +232,11 @@ def run(plan):
 class SideMonitor:
     """State listener + file checks for one transfer on one side."""
 
-    def __init__(self, world, who, source: bytes, role: str):
+    def __init__(self, world, who, source: bytes, role: str, honest_content: bool = True):
         self.world = world
         self.who = who
-        self.source = source
+        self.source = source       # what the remote file is (for a lying announcement: its announced prefix)
+        self.honest_content = honest_content
         self.role = role           # 'download' | 'upload'
         self.path_states = []      # (t, old, new)
         self.transfer = None
@@ -274,7 +275,7 @@ class SideMonitor:
                 self.complete_at = now
 
     def check_prefix(self, where):
-        if self.role != 'download':
+        if self.role != 'download' or not self.honest_content:
             return
         data = self.local_bytes()
         if data is None:
@@ -512,7 +513,12 @@ def _run_scripted(world: World, plan):
     })
     xp = XferPeer(world, 'mallory')
     xp.attach(alice)
-    mon = SideMonitor(world, 'alice', source, 'download' if role == 'uploader' else 'upload')
+    # a sender that lies about the size: "the remote file" is what it announced, if it has that many bytes
+    announced = source
+    if role == 'uploader' and beh.get('announce_delta', 0) < 0:
+        announced = source[:max(size + beh['announce_delta'], 0)]
+    mon = SideMonitor(world, 'alice', announced, 'download' if role == 'uploader' else 'upload',
+                      honest_content=not (beh.get('extra_len') or beh.get('announce_delta')))
     world.keep_alive.append(mon)
     fired = world.net.fired
 
@@ -589,7 +595,7 @@ def _run_scripted(world: World, plan):
         # download COMPLETE => intact (checked in the monitor). A short/long sender must not end COMPLETE with a wrong file.
         if t is not None and t.state.VALUE.name == 'COMPLETE':
             data = mon.local_bytes()
-            if data != source:
+            if data != announced:
                 world.violate('C04.complete_bytes', size_class=sc, at='end', beh=sorted(beh))
     else:
         dl = results.get('dl')
@@ -599,12 +605,19 @@ def _run_scripted(world: World, plan):
             got = dl.attempt_bytes[-1] if dl.attempt_bytes else 0
             due = max(size - off, 0)
             ended = [e for e in dl.ended if e[0] <= mon.complete_at + 1e-9]
-            if 'read_bytes' in beh and beh['read_bytes'] < due:
-                world.violate('C04.upload_complete', what='COMPLETE although the peer stopped reading early', size_class=sc,
-                              stop_how=beh.get('stop_how'))
-            elif off > size:
+            # the statement says *sent*: judge what alice handed to the socket of that file connection
+            sent = None
+            if dl.f_links:
+                conn = dl.f_links[-1].writer.transport.conn
+                pipe = conn.c2s if conn.src.name == 'alice' else conn.s2c
+                header = (pipe.written - 0)
+                sent = pipe.written
+            if off > size:
                 world.violate('C04.upload_complete', what='COMPLETE with an offset beyond the size', size_class=sc)
-            elif beh.get('after_all') == 'never_close':
+            elif sent is not None and sent < due:
+                world.violate('C04.upload_complete', what='COMPLETE although not all bytes were handed to the socket',
+                              size_class=sc, stop_how=beh.get('stop_how'))
+            elif beh.get('after_all') == 'never_close' and not ended:
                 world.violate('C04.upload_complete', what='COMPLETE although the peer never closed', size_class=sc)
     for rec in world.loop.exc_contexts:
         world.violate('C04.fault_state', what='loop exception handler', exc=rec.get('exc_type'), coro=rec.get('coro'),
